@@ -71,7 +71,7 @@ type ContractSet struct {
 	// per package: extra Go source from the generator
 }
 
-var kwRe = regexp.MustCompile(`^(pred|func|ext|iface|lemma|requires|ensures|modifies|loop|inline|pure|trusted|opaque|serves|uses|maypanic|attr|decreases|callbackinv|crashinv)\b`)
+var kwRe = regexp.MustCompile(`^(guard|pred|func|ext|iface|lemma|requires|ensures|modifies|loop|inline|pure|trusted|opaque|serves|uses|maypanic|attr|decreases|callbackinv|crashinv)\b`)
 
 // parseContractComments extracts contracts from the //@ lines of a file.
 func parseContractComments(fset *token.FileSet, f *ast.File, pkgPath string) ([]*Contract, error) {
@@ -109,6 +109,14 @@ func parseContractComments(fset *token.FileSet, f *ast.File, pkgPath string) ([]
 			rest := strings.TrimSpace(text[len(m):])
 			lastClause, lastList = nil, nil
 			switch m {
+			case "guard":
+				// guard Type.field by lockfield      (lock discipline, C09)
+				f := strings.Fields(rest)
+				if len(f) != 3 || f[1] != "by" || !strings.Contains(f[0], ".") {
+					return nil, fmt.Errorf("%s: guard needs 'Type.field by lockfield'", where)
+				}
+				cur = nil
+				out = append(out, &Contract{PkgPath: pkgPath, Kind: "guard", Key: "guard:" + pkgPath + "." + f[0], Sig: f[2], Loops: map[int][]*Clause{}, Attrs: map[string]string{}, Pos: where})
 			case "pred":
 				// pred name(params) type = expr
 				eq := findTop(rest, "=", false)
